@@ -28,6 +28,10 @@ pub struct Image {
     pub zones: Vec<String>,
     /// The subset of `zones` that has days without a local midnight.
     pub midnight_gap_zones: Vec<String>,
+    /// Catalogue names that are symbolic links to another zone file, e.g.
+    /// "US/Eastern" (-> "../America/New_York"); empty where the database is
+    /// installed with hard links.
+    pub links: Vec<String>,
 }
 
 fn be32(b: &[u8], at: usize) -> usize {
@@ -95,15 +99,18 @@ fn scan_tzif(b: &[u8]) -> Option<(Vec<i64>, Vec<i64>, usize)> {
     Some((tr, gaps, d2 + v2_len))
 }
 
-fn load_dir(root: &Path, dir: &Path, out: &mut BTreeMap<String, ZoneFile>) {
+fn load_dir(root: &Path, dir: &Path, out: &mut BTreeMap<String, ZoneFile>, links: &mut Vec<String>) {
     let Ok(rd) = std::fs::read_dir(dir) else { return };
     let mut entries: Vec<_> = rd.filter_map(|e| e.ok()).map(|e| e.path()).collect();
     entries.sort();
     for p in entries {
         if p.is_dir() {
-            load_dir(root, &p, out);
+            load_dir(root, &p, out, links);
         } else if let Ok(bytes) = std::fs::read(&p) {
             let rel = p.strip_prefix(root).unwrap().to_str().unwrap().to_string();
+            if std::fs::symlink_metadata(&p).map(|m| m.file_type().is_symlink()).unwrap_or(false) {
+                links.push(rel.clone());
+            }
             let scanned = scan_tzif(&bytes);
             let (transitions, midnight_gaps, footer_at, is_tzif) = match scanned {
                 Some((t, g, f)) => (t, g, f, true),
@@ -132,12 +139,13 @@ impl Image {
         let zones: Vec<String> = files.keys().cloned().collect();
         let midnight_gap_zones =
             zones.iter().filter(|z| !files[*z].midnight_gaps.is_empty()).cloned().collect();
-        Image { files, zones, midnight_gap_zones }
+        Image { files, zones, midnight_gap_zones, links: vec![] }
     }
     pub fn load() -> Image {
         let root = Path::new(ZONEINFO);
         let mut files = BTreeMap::new();
-        load_dir(root, root, &mut files);
+        let mut links = vec![];
+        load_dir(root, root, &mut files, &mut links);
         let zones: Vec<String> = files
             .iter()
             .filter(|(k, v)| {
@@ -152,7 +160,8 @@ impl Image {
             .collect();
         let midnight_gap_zones =
             zones.iter().filter(|z| !files[*z].midnight_gaps.is_empty()).cloned().collect();
-        Image { files, zones, midnight_gap_zones }
+        let links = links.into_iter().filter(|l| zones.contains(l)).collect();
+        Image { files, zones, midnight_gap_zones, links }
     }
     pub fn get(&self, abs: &Path) -> Option<&ZoneFile> {
         let rel = abs.strip_prefix(ZONEINFO).ok()?;
